@@ -44,10 +44,11 @@ def confirm(mdir):
         res["suite_passes_with_change"] = rc == 0
         dd = demo_dir(mdir)
         shutil.copy(os.path.join(mdir, "demo_test.go"), os.path.join(wt, dd, "zz_demo_test.go"))
-        rc, out = sh("go test -vet=off -count=1 -run 'TestMutantDemo' ./%s" % dd, cwd=wt)
+        race = "-race " if "go:build race" in open(os.path.join(mdir, "demo_test.go")).read() else ""
+        rc, out = sh("go test %s-vet=off -count=1 -run 'TestMutantDemo' ./%s" % (race, dd), cwd=wt)
         res["demo_fails_with_change"] = rc != 0
         sh("git apply -R %s" % patch, cwd=wt)
-        rc, out = sh("go test -vet=off -count=1 -run 'TestMutantDemo' ./%s" % dd, cwd=wt)
+        rc, out = sh("go test %s-vet=off -count=1 -run 'TestMutantDemo' ./%s" % (race, dd), cwd=wt)
         res["demo_passes_without_change"] = rc == 0
         if rc:
             res["demo_head_out"] = out[-600:]
